@@ -2,6 +2,7 @@ import PGA.Proofs.Estimate
 import PGA.Props.C01
 import PGA.Props.C19
 import PGA.Proofs.EstimateUQ
+import PGA.Proofs.DiagDominant
 import PGA.Proofs.SchemeUnion
 import PGA.Model.Pipeline
 import Mathlib.Algebra.BigOperators.Group.Finset.Basic
@@ -539,6 +540,36 @@ theorem specQuad_vplus (M : List (List Rat)) (x y : List Rat) (h : x.length = y.
     specQuad M (vplus x y) = specQuad M x + specQuad M y + specBilin M x y + specBilin M y x := by
   rw [specQuad_eq_bilin, specQuad_eq_bilin, specQuad_eq_bilin, specBilin_vplus_left M x y _ h,
     specBilin_vplus_right M x x y h, specBilin_vplus_right M y x y h]
+  ring
+
+/-- the bilinear form as a double sum over `Fin n` -/
+theorem specBilin_eq_sum (n : ℕ) (M : List (List Rat)) (x y : List Rat) (hM : Square n M) (hx : x.length = n)
+    (hy : y.length = n) :
+    specBilin M x y = ∑ i : Fin n, ∑ j : Fin n, x.getD i 0 * entry M i j * y.getD j 0 := by
+  unfold specBilin
+  rw [sum_zipWith_fin _ 0 [] n x M hx hM.1]
+  apply Finset.sum_congr rfl
+  intro i _
+  have hrow : (M.getD i []).length = n := by
+    apply hM.2
+    rw [List.getD_eq_getElem (l := M) (d := []) (by rw [hM.1]; exact i.2)]
+    exact List.getElem_mem _
+  unfold specDot
+  rw [sum_zipWith_fin _ 0 0 n _ y hrow hy, Finset.mul_sum]
+  apply Finset.sum_congr rfl
+  intro j _
+  simp only [entry]
+  ring
+
+/-- for a symmetric matrix `xᵀMy = yᵀMx` -/
+theorem specBilin_symm (n : ℕ) (M : List (List Rat)) (x y : List Rat) (hM : Square n M) (hx : x.length = n)
+    (hy : y.length = n) (hsym : ∀ i j, entry M i j = entry M j i) : specBilin M x y = specBilin M y x := by
+  rw [specBilin_eq_sum n M x y hM hx hy, specBilin_eq_sum n M y x hM hy hx, Finset.sum_comm]
+  apply Finset.sum_congr rfl
+  intro j _
+  apply Finset.sum_congr rfl
+  intro i _
+  rw [hsym i j]
   ring
 
 /-- the count vector is additive in the counts -/
